@@ -20,6 +20,9 @@ import (
 // the notice of disconnection) once the server is stopping.
 const shutdownWriteGrace = time.Second
 
+// acceptRetryDelay is the pause before Accept is retried after a temporary error
+const acceptRetryDelay = 5 * time.Millisecond
+
 // Server is an ldap server that you can add a mux (multiplexer) router to and
 // then run it to accept and process requests.
 type Server struct {
@@ -195,6 +198,14 @@ func (s *Server) Run(addr string, opt ...Option) error {
 			if strings.Contains(err.Error(), "use of closed network connection") {
 				s.logger.Debug("accept on closed conn")
 				return nil
+			}
+			if ne, ok := err.(net.Error); ok && ne.Temporary() { //nolint:staticcheck // (same test as net/http's Server)
+				// e.g. the process ran out of file descriptors: that is not
+				// a reason to stop serving the conns we have and the ones
+				// to come
+				s.logger.Error("temporary error accepting conn", "op", op, "err", err.Error())
+				time.Sleep(acceptRetryDelay)
+				continue
 			}
 			return fmt.Errorf("%s: error accepting conn: %w", op, err)
 		}
